@@ -19,8 +19,10 @@ mod dapw;
 mod dapx;
 mod e2x;
 mod isession;
+mod mt;
 mod reftrace;
 mod sched;
+mod simk;
 mod valw;
 
 use common::*;
@@ -73,6 +75,19 @@ fn main() {
                 }
                 Err(e) => {
                     eprintln!("trace failed: {e}");
+                    std::process::exit(2);
+                }
+            }
+        }
+        "corpus-mt" => {
+            let w: usize = args.get(2).and_then(|s| s.parse().ok()).unwrap_or(2);
+            let i: u64 = args.get(3).and_then(|s| s.parse().ok()).unwrap_or(5);
+            let m: u64 = args.get(4).and_then(|s| s.parse().ok()).unwrap_or(3);
+            let sp: u64 = args.get(5).and_then(|s| s.parse().ok()).unwrap_or(0);
+            match corpus::build(&corpus::generate_mt(w, i, m, sp), &corpus::Config::default_cfg()) {
+                Ok(b) => println!("{} {}", b.exe, b.src_path),
+                Err(e) => {
+                    eprintln!("{e}");
                     std::process::exit(2);
                 }
             }
@@ -145,9 +160,19 @@ fn run_check(id: &str, tier: Tier) -> i32 {
             r.parts.push(c08::part_parsers(tier));
             finish(r)
         }
+        "C09" => {
+            let mut r = Report::new("C09", tier, "model_checking");
+            r.parts.push(simk::part_c09(tier));
+            r.parts.push(simk::part_c09_temp(tier));
+            r.parts.push(mt::part_c09_real(tier));
+            r.parts.push(mt::part_c09_witnesses(tier));
+            finish(r)
+        }
         "C10" => {
             let mut r = Report::new("C10", tier, "model_checking");
             r.parts.push(c01::part_c10(tier));
+            r.parts.push(simk::part_c10_sim(tier));
+            r.parts.push(mt::part_c10_witnesses(tier));
             finish(r)
         }
         "C11" => {
@@ -170,11 +195,13 @@ fn run_check(id: &str, tier: Tier) -> i32 {
             let mut r = Report::new("C14", tier, "model_checking");
             r.parts.push(c14::part_dr7(tier));
             r.parts.push(c01::part_c14_regs(tier));
+            r.parts.push(mt::part_c14_threads(tier));
             finish(r)
         }
         "C15" => {
             let mut r = Report::new("C15", tier, "exploration");
             r.parts.push(c15::part_sweep(tier));
+            r.parts.push(mt::part_c15_threads(tier));
             finish(r)
         }
         "C16" => {
@@ -220,6 +247,8 @@ fn replay(path: &str) -> i32 {
             if got != want { 1 } else { 0 }
         }
         "sched" => sched::replay(rp),
+        "simk" => simk::replay(rp),
+        "mt" => mt::replay(rp),
         "e2e" => e2x::replay(rp),
         "dap" => dapx::replay(rp),
         "c15" => c15::replay(rp),
